@@ -91,9 +91,11 @@ def ratio (a b : Nat) : Option Dec :=
     let r := strip (rhe (a * 10 ^ 28) b) 28
     some ⟨false, r.1, r.2⟩
 
-/-- `round_dp_with_strategy(0, MidpointAwayFromZero)` – magnitude; the sign is kept -/
+/-- `round_dp_with_strategy(0, MidpointAwayFromZero)`: round the magnitude, keep the sign
+    unless the result is zero (rust_decimal never yields a negative zero here) -/
 def rha0 (d : Dec) : Dec :=
-  ⟨d.neg, (2 * d.mant + 10 ^ d.scale) / (2 * 10 ^ d.scale), 0⟩
+  let m := (2 * d.mant + 10 ^ d.scale) / (2 * 10 ^ d.scale)
+  ⟨d.neg && m != 0, m, 0⟩
 
 /-! ### `Decimal::from_str` -/
 
